@@ -547,12 +547,56 @@ def mutate(seed, items):
     return mut
 
 
+# a global array whose C lvalue has no fixed address (a macro selecting a row, and a
+# thread-local array): every access must ask the C side again where it is
+MOVING_CDEF = ('int c12_cur[4]; int c12_which; int c12_row_get(int r, int i); void *c12_row_addr(int r);'
+               ' int c12_tl[2]; void *c12_tl_addr(void);\n')
+MOVING_SRC = ('static int c12_rows[3][4]; int c12_which;\n#define c12_cur (c12_rows[c12_which])\n'
+              'int c12_row_get(int r, int i) { return c12_rows[r][i]; }\n'
+              'void *c12_row_addr(int r) { return c12_rows[r]; }\n'
+              'static __thread int c12_tl_real[2];\n#define c12_tl c12_tl_real\n'
+              'void *c12_tl_addr(void) { return c12_tl_real; }\n')
+
+
+def moving_globals(A, rep, detail):
+    import threading
+    ffi, lib = A.ffi, A.lib
+    addr = lambda p: int(ffi.cast('uintptr_t', p))
+    for r in (0, 2, 1, 2, 0):
+        lib.c12_which = r
+        rep.stat('A_moving_global_accesses')
+        lib.c12_cur[1] = 100 + r
+        a = addr(lib.c12_cur)
+        a2 = addr(ffi.addressof(lib, 'c12_cur'))
+        want = addr(lib.c12_row_addr(r))
+        if lib.c12_row_get(r, 1) != 100 + r or a != want or a2 != want:
+            rep.bad('global-array-address-not-refetched', 'c12_cur is a macro for c12_rows[c12_which]; '
+                    'with c12_which = %d: lib.c12_cur at %#x, addressof %#x, C says %#x, C reads '
+                    'row[1] = %d after lib.c12_cur[1] = %d' % (r, a, a2, want, lib.c12_row_get(r, 1),
+                                                                 100 + r), detail)
+            break
+    seen = {}
+
+    def other():
+        seen['lib'], seen['c'] = addr(lib.c12_tl), addr(lib.c12_tl_addr())
+    mine = (addr(lib.c12_tl), addr(lib.c12_tl_addr()))
+    t = threading.Thread(target=other)
+    t.start()
+    t.join()
+    rep.stat('A_thread_local_global_array_checked')
+    if mine[0] != mine[1] or seen.get('lib') != seen.get('c'):
+        rep.bad('global-array-address-not-refetched:thread-local', 'a __thread array: main thread '
+                'lib %#x C %#x, second thread lib %#x C %#x' % (mine[0], mine[1], seen.get('lib', 0),
+                                                                 seen.get('c', 0)), detail)
+
+
 def specs_for(d, seed, tag):
     items = gen_source(seed)
     src = c_source(items)
     mut = mutate(seed, items)
     return items, mut, [
-        {'name': '_c12a_%s' % tag, 'kind': 'api', 'cdef': cdef_text(items), 'source': src, 'dir': d},
+        {'name': '_c12a_%s' % tag, 'kind': 'api', 'cdef': cdef_text(items) + MOVING_CDEF,
+         'source': src + MOVING_SRC, 'dir': d},
         {'name': '_c12m_%s' % tag, 'kind': 'api', 'cdef': cdef_text(items, mut), 'source': src,
          'dir': d},
         {'name': '_c12d_%s' % tag, 'kind': 'api', 'cdef': cdef_text(items, mut, dots=True),
@@ -638,6 +682,11 @@ def child_case(st, case):
     PN = importlib.import_module(sp[5]['name'])
     first_visit = sp[0]['name'] not in _FIRST_VISIT
     _FIRST_VISIT.add(sp[0]['name'])
+    try:
+        moving_globals(A, rep, [case['seed'], case['tag'], 'moving-globals'])
+    except Exception as e:
+        rep.bad('agreement-raised:moving-global:%s' % type(e).__name__, str(e)[:200],
+                [case['seed'], case['tag'], 'moving-globals'])
     errs = (A.ffi.error,)
     try:
         from cffi import VerificationError
@@ -1283,7 +1332,11 @@ def child_case(st, case):
     # ---------------- module A: every declared name is exposed ----------------
     detail = [case['seed'], case['tag'], -1]
     try:
-        names = set(dir(A.lib))
+        MOVING = set(['c12_cur', 'c12_row_addr', 'c12_row_get', 'c12_tl', 'c12_tl_addr', 'c12_which'])
+        names = set(dir(A.lib)) - MOVING          # (the fixed extra block of module A)
+        if not MOVING <= set(dir(A.lib)):
+            rep.bad('declared-name-not-exposed', 'dir(lib) lacks %r' %
+                    sorted(MOVING - set(dir(A.lib))), detail)
         tds, sts, uns = A.ffi.list_types()
         rep.case(('A', 'exposure', case['seed']))
         rep.stat('A_exposed_names_compared', len(exposed))
@@ -1303,7 +1356,7 @@ def child_case(st, case):
         if missing or extra or mt:
             rep.bad('declared-name-not-exposed', 'dir(lib) lacks %r, has undeclared %r; '
                     'list_types() lacks %r' % (missing, extra, mt), detail)
-        d = A.lib.__dict__
+        d = set(A.lib.__dict__) - MOVING
         if set(d) != names - set(x['name'] for x in items
                                  if x['kind'] in ('glob', 'garr', 'gptr', 'gstruct')) and \
                 set(d) != names:
